@@ -54,10 +54,11 @@ class Fabric:
                 buf = rest2
                 if self.gate:
                     self.gate(req)
-                status, ctype, rbody, close = self.respond(req)
+                status, ctype, rbody, close, *more = self.respond(req)
                 if status is None:       # drop the connection (reset-like)
                     return
-                out = b"HTTP/1.1 %d X\r\ncontent-type: %s\r\ncontent-length: %d\r\n\r\n" % (status, ctype.encode(), len(rbody)) + rbody
+                declared = more[0] if more else len(rbody)     # a handler may announce another length than it sends
+                out = b"HTTP/1.1 %d X\r\ncontent-type: %s\r\ncontent-length: %d\r\n\r\n" % (status, ctype.encode(), declared) + rbody
                 c.sendall(out)
                 if close:
                     return
@@ -75,7 +76,7 @@ class Fabric:
             if t.startswith(prefix):
                 r = h(req)
                 if r is not None:
-                    return r if len(r) == 4 else (r[0], r[1], r[2], False)
+                    return r if len(r) >= 4 else (r[0], r[1], r[2], False)
         if req["method"] == "GET" and t.startswith("machine?comp=goalstate"):
             doc = fabric_docs.GOALSTATE.replace("##ip##", self.ip).replace("##port##", str(self.port))
             return 200, "text/xml; charset=utf-8", doc.encode(), False
